@@ -94,3 +94,15 @@ package exit
 //@ at call StreamWriter.WriteStreamData#0 assert $3 == ct && len($3) <= 16384 && $1 == ac.RemoteID && $2 == ac.StreamID && $4 == 0
 //@ at call StreamWriter.WriteStreamData#1 assert len($3) == 0 && $1 == ac.RemoteID && $2 == ac.StreamID && $4 == 1
 //@ census[C07] StreamWriter.WriteStreamData in (*Handler).readLoop
+
+// Forward path at the far end: the payload of a data frame is opened whole and
+// the resulting plaintext is written whole to the destination of that stream.
+
+//@ func (*Handler).HandleStreamData
+//@ prop C07
+//@ modifies *
+//@ after call IsClosed let conn0 = ac.Conn
+//@ at call Decrypt assert $1 == data
+//@ after call Decrypt let pt = $ret0
+//@ at call net.Conn.Write assert $1 == pt && $0 == conn0 && ac == h.connections[streamID]
+//@ census[C07] net.Conn.Write in (*Handler).HandleStreamData
